@@ -97,6 +97,8 @@ func c01Keys(kind drv.Kind) (names []string, keys map[string]string) {
 		keys["long1024"] = strings.Repeat("k", 1024)
 		keys["long1024-segments"] = strings.Repeat(strings.Repeat("s", 199)+"/", 5) + strings.Repeat("t", 24)
 	}
+	// 722 bytes of multi-byte UTF-8: three times as long once it is percent-encoded (copy source header)
+	keys["utf8-722-bytes"] = strings.Repeat(strings.Repeat("日", 80)+"/", 2) + strings.Repeat("日", 80)
 	for n := range keys {
 		names = append(names, n)
 	}
